@@ -337,6 +337,14 @@ def islandSummary (ncomp : Nat) (xmin xmax ymin ymax : Nat) (pix : List Pix) : S
   { components := ncomp, pixels := pix.length, peak := peakOf (pix.map (·.v)),
     xWidth := xmax - xmin, yWidth := ymax - ymin, extent := (xmin, xmax, ymin, ymax) }
 
+/-- the pixel the island row is positioned at: `np.where(kappa_sigma == peak_flux)`, first hit in
+    row-major order (the order in which the detected pixels are listed) — for a negative island this
+    is the most negative pixel, not the `nanargmax` -/
+def peakPix (pix : List Pix) : Option Pix :=
+  match peakOf (pix.map (·.v)) with
+  | none => none
+  | some pk => pix.find? (fun p => p.v = pk)
+
 /-- the pixels lie inside the box (what `find_islands` guarantees: C02) -/
 def inBox (xmin xmax ymin ymax : Nat) (p : Pix) : Bool :=
   xmin ≤ p.x && p.x < xmax && ymin ≤ p.y && p.y < ymax
